@@ -595,10 +595,11 @@ static void _flush_output (cbuf_t cb, out_f outf, thd_t *th)
     while ((n = cbuf_read (cb, buf, sizeof (buf) - 1)) > 0) {
         buf[n] = '\0';
         if (th->labels && !labeled) {
-            outf ("%S: ", th->host);
+            outf ("%S: %s", th->host, buf);
             labeled = true;
         }
-        outf ("%s", buf);
+        else
+            outf ("%s", buf);
     }
 
     return;
